@@ -15,25 +15,6 @@
 (***************************************************************************)
 EXTENDS PushParser
 
-\* ---- "{:.p}" of a float for p in {1, 3}: exact for non-finite values, zeros and small dyadics
-RECURSIVE Pow10(_)
-Pow10(p) == IF p = 0 THEN 1 ELSE 10 * Pow10(p - 1)
-FixedFloat(b, p) ==
-  IF FIsNaN(b) THEN "NaN"
-  ELSE IF FIsInf(b) THEN (IF FNegBit(b) THEN "-inf" ELSE "inf")
-  ELSE LET sign == IF FNegBit(b) THEN "-" ELSE ""
-           zeros == SubSeq("000000", 1, p) IN
-       IF FIsZero(b) THEN sign \o "0." \o zeros
-       ELSE LET d == FDecode(b) IN
-            IF d.e >= 0 THEN sign \o ToString(d.m * 2^d.e) \o "." \o zeros
-            ELSE LET k == -d.e
-                     num == d.m * Pow10(p)
-                     q == num \div 2^k
-                     r == num % 2^k
-                     half == 2^(k - 1)
-                     n == IF r > half \/ (r = half /\ q % 2 = 1) THEN q + 1 ELSE q
-                 IN sign \o ToString(n \div Pow10(p)) \o "." \o PadTo(ToString(n % Pow10(p)), p)
-
 \* ---- Rust's str::trim (Unicode White_Space; the non-ASCII members are supplied as WS)
 RECURSIVE FirstNonWS(_, _, _)
 FirstNonWS(s, i, WS) == IF i > Len(s) THEN i ELSE IF Ch(s, i) \in WS THEN FirstNonWS(s, i + 1, WS) ELSE i
